@@ -182,3 +182,62 @@ func VerifCoalescingRace() {
 	zzverif.Assert(zzverif.ThreadsAliveIs(1), "helpers_finished_when_close_returns")
 	zzverif.Cover("coalescing_race_done")
 }
+
+// One step of the back-off from ANY state satisfying its invariant (inductive step, so that bursts of any length are
+// covered, not only the handful of Adds a timeline harness can issue): before the step the factor is 2^k, 0 <= k <= 62,
+// and the window is min(initial x 2^k, max); an Add inside the window re-arms the timer with a window that is still
+// positive, at least the initial delay and at most the maximum, and the invariant holds again. The factor is forked
+// (float conversion is concrete in the engine), the instant of the Add inside the window is symbolic.
+//
+//verif:harness prop=C09 name=coalescing_backoff_step threads=1 unwind=12 race=off
+func VerifCoalescingBackoffStep() {
+	delays := [][2]time.Duration{{vInitial, vMax}, {500 * time.Millisecond, 5 * time.Second}, {time.Millisecond, time.Millisecond}, {3 * time.Nanosecond, time.Hour}}
+	dl := delays[zzverif.Choose("delays", len(delays))]
+	ini, max := dl[0], dl[1]
+	start := zzverif.TimeFromNanos(1_000_000_000)
+	clk := zzverifstubs.NewClock(start)
+	rl, err := NewCoalescing(OptionsCoalescing{InitialDelay: &ini, MaxDelay: &max})
+	zzverif.Assert(err == nil, "valid_options_accepted")
+	c := rl.(*coalescing)
+	c.clock = clk
+	k := zzverif.Choose("log2_factor", 63)
+	c.backoffFactor = 1 << uint(k)
+	cur := max
+	if f := float64(ini) * float64(c.backoffFactor); f < float64(max) {
+		cur = time.Duration(f)
+	}
+	c.currentDur = cur
+	c.timer = clk.NewTimer(cur)
+	c.hasTimer.Store(true)
+	c.pendingEvents = 1
+	off := zzverif.Int64("add_offset")
+	zzverif.Assume(off >= 0)
+	zzverif.Assume(off < int64(cur))
+	clk.Advance(time.Duration(off))
+	ch := make(chan struct{}, 1)
+	c.handleInputCh(context.Background(), ch)
+	zzverif.Assert(c.currentDur > 0, "window_stays_positive")
+	zzverif.Assert(c.currentDur >= ini && c.currentDur <= max, "window_between_initial_and_max")
+	zzverif.Assert(c.currentDur >= cur, "window_never_shrinks_during_a_burst")
+	zzverif.Assert(c.backoffFactor >= 1, "factor_stays_positive")
+	want := max
+	if f := float64(ini) * float64(c.backoffFactor); f < float64(max) {
+		want = time.Duration(f)
+	}
+	zzverif.Assert(c.currentDur == want, "invariant_window_is_min_of_scaled_initial_and_max")
+	zzverif.Assert(len(ch) == 0, "no_signal_inside_the_window")
+	// the re-armed timer fires exactly one window after this Add
+	clk.Advance(c.currentDur - 1)
+	select {
+	case <-c.timer.C():
+		zzverif.Assert(false, "timer_not_before_window_end")
+	default:
+	}
+	clk.Advance(1)
+	select {
+	case <-c.timer.C():
+	default:
+		zzverif.Assert(false, "timer_at_window_end")
+	}
+	zzverif.Cover("coalescing_backoff_step_done")
+}
